@@ -374,6 +374,8 @@ func getReal(x postscript.Object) (float64, bool) {
 
 var dateFormats = []string{
 	"2006-01-02 15:04:05 -0700 MST",
+	"2006-01-02 15:04:05 -0700 -0700", // what the writer emits for a zone without a name
+	"2006-01-02 15:04:05 -0700",
 	"Mon Jan 2 15:04:05 2006",
 	"Mon, 2 Jan 2006 15:04:05",
 	"Mon Jan 2 2006",
